@@ -10,7 +10,6 @@ namespace FastPasta
 
 /-- Data-reachable panic sites of the implementation (C04). -/
 inductive PanicSite
-  | emptyChipList            -- lane_alpide_frame_analyzer.rs:254 unique_bcs.first().unwrap()
   | invalidLayer             -- words/its.rs:94           panic!("Invalid layer number")
   | fatalLaneGrouping        -- alpide_readout_frame.rs:120 unreachable!("Invalid fatal lane number")
   | ihwMissing               -- cdp_running.rs  status_words.ihw().unwrap()
@@ -18,7 +17,7 @@ inductive PanicSite
   deriving DecidableEq, Repr, Inhabited
 
 def PanicSite.name : PanicSite → String
-  | .emptyChipList => "emptyChipList" | .invalidLayer => "invalidLayer"
+  | .invalidLayer => "invalidLayer"
   | .fatalLaneGrouping => "fatalLaneGrouping" | .ihwMissing => "ihwMissing"
   | .feeIdNotSeen => "feeIdNotSeen"
 
@@ -133,9 +132,8 @@ def laneVerdict (cfg : AlpideCfg) (barrel : Barrel) (laneNumber : Nat) (d : Lane
     Except PanicSite LaneVerdict :=
   if d.fatal then .ok .fatal else
   let bcs := dedupNat (d.chips.map (·.2))
-  -- check_bunch_counters: `unique_bcs.first().unwrap()` when at most one distinct value
-  if bcs.length ≤ 1 && d.chips.isEmpty then .error .emptyChipList else
-  let e9003 : List String := if bcs.length > 1 then ["E9003"] else []
+  -- check_bunch_counters: no chip at all, or more than one distinct bunch counter
+  let e9003 : List String := if d.chips.isEmpty || bcs.length > 1 then ["E9003"] else []
   let ids := d.chips.map (·.1)
   let countBad : Bool := match barrel with
     | .inner => ids.length != 1
